@@ -13,7 +13,9 @@ Record obs01 := mkObs01 {
   ob_errkeys : list string;                                   (* keys of GetErrors() that are Spec files *)
   ob_referr : bool;                                           (* Refresh() returned an error *)
   ob_auto : bool;                                             (* the cache is in automatic refresh mode now *)
-  ob_direrrs : list string }.                                 (* keys of GetSpecDirErrors() *)
+  ob_direrrs : list string;                                   (* keys of GetSpecDirErrors() *)
+  ob_specerrs : list string;                                  (* paths of the cached Specs s with GetSpecErrors(s) non-empty *)
+  ob_allerrs : list string }.                                 (* every key of GetErrors() *)
 Inductive case01 := Case01 (fs : fsview) (o : obs01).
 
 Definition fingerprint (d : device) : string := hd "" (e_env (d_edits d)).
@@ -25,9 +27,14 @@ Definition pn_eqb (a b : string * nat) : bool := String.eqb (fst a) (fst b) && N
 Definition proj_files (l : list lfile) : list (string * nat) := map (fun f => (lf_path f, lf_prio f)) l.
 
 (* directory-level entries: in automatic refresh mode exactly the configured directories that cannot be watched because they
-   are missing (no other directory fault is generated in that mode); none in manual mode, whatever the cache went through *)
+   are missing or lie below a non-directory (a configured path which is a file can be watched); none in manual mode, whatever
+   the cache went through *)
 Definition expected_direrrs (fs : fsview) (auto : bool) : list string :=
-  if auto then sort_strings (dedup_s (map fst (filter (fun d => match snd d with DMissing => true | _ => false end) fs))) else [].
+  if auto then sort_strings (dedup_s (map fst (filter (fun d => match snd d with DMissing | DUnscannable => true | _ => false end) fs))) else [].
+
+(* the cached Specs (every vendor) whose path has an entry in the error report *)
+Definition spec_err_paths (c : cache) : list string :=
+  sort_strings (dedup_s (filter (fun p => mem_s p (c_errs c)) (map lf_path (flat_map snd (c_specs c))))).
 
 (* the model's answers equal the observed ones *)
 Definition corr01 (c : case01) : bool :=
@@ -39,7 +46,8 @@ Definition corr01 (c : case01) : bool :=
       ls_eqb (list_vendors ch) (ob_vendors o) && ls_eqb (list_classes ch) (ob_classes o) &&
       forallb (fun vs => list_eqb pn_eqb (proj_files (vendor_specs (c_specs ch) (fst vs))) (snd vs)) (ob_vspecs o) &&
       ls_eqb (error_keys ch) (ob_errkeys o) && Bool.eqb (refresh_fails ch) (ob_referr o) &&
-      ls_eqb (expected_direrrs fs (ob_auto o)) (ob_direrrs o)
+      ls_eqb (expected_direrrs fs (ob_auto o)) (ob_direrrs o) &&
+      ls_eqb (spec_err_paths ch) (ob_specerrs o)
   end.
 
 (* sort a list of (path, prio) for the order-insensitive comparison of the oracle *)
@@ -69,7 +77,12 @@ Definition oracle01 (c : case01) : bool :=
       ls_eqb (ob_errkeys o) (expected_error_keys files) &&
       Bool.eqb (ob_referr o) (match expected_error_keys files with [] => false | _ => true end) &&
       (* an entry for a directory is there exactly while its cause is (C13: it disappears at the first refresh afterwards) *)
-      ls_eqb (ob_direrrs o) (expected_direrrs fs (ob_auto o))
+      ls_eqb (ob_direrrs o) (expected_direrrs fs (ob_auto o)) &&
+      (* GetSpecErrors answers with errors exactly for the loaded files which have an entry (those in a conflict) *)
+      ls_eqb (ob_specerrs o)
+             (sort_strings (dedup_s (filter (fun p => mem_s p (expected_error_keys files)) (map lf_path fl)))) &&
+      (* the error report holds the entries of the Spec files and those of the directories, nothing else *)
+      ls_eqb (ob_allerrs o) (sort_strings (dedup_s (ob_errkeys o ++ ob_direrrs o)%list))
   end.
 
 Definition judge01 (cases : list case01) : list nat * list nat :=
